@@ -12,6 +12,11 @@ local loader_cache = {}
 local loaddata_cache = {}
 local _orig_package = package
 
+-- Modules loaded by require() / #invoke.  This is a private table: the host's
+-- package.loaded also holds io, os, package, debug, _G and the Python bridge,
+-- and must never be what require() answers from.
+local loaded_modules = { math = math, table = table }
+
 -- https://github.com/wikimedia/mediawiki-extensions-Scribunto/blob/d35ca1f8d5fd23f1a9915e497cc00cac238f28c4/includes/Engines/LuaCommon/lualib/mwInit.lua#L38-L71
 --- Do a "deep copy" of a table or other value.
 do
@@ -93,8 +98,8 @@ end
 -- Tries to look up a module loaded by require() from the cache.  This is
 -- also called from _lua_invoke().
 function _cached_mod(modname)
-    if _orig_package.loaded[modname] then
-        return _orig_package.loaded[modname]
+    if loaded_modules[modname] then
+        return loaded_modules[modname]
     end
     return nil
 end
@@ -102,7 +107,7 @@ end
 -- Saves module loaded by require() into a cache.  This is also called
 -- from _lua_invoke().
 function _save_mod(modname, mod)
-    _orig_package.loaded[modname] = mod
+    loaded_modules[modname] = mod
 end
 
 -- Re-implements require()
@@ -431,9 +436,9 @@ local function _lua_reset_env()
     }
 
     -- Cause most packages to be reloaded
-    for k, v in pairs(package.loaded) do
+    for k, v in pairs(loaded_modules) do
         if retained_modules[k] ~= true then
-            package.loaded[k] = nil
+            loaded_modules[k] = nil
         end
     end
 
